@@ -235,4 +235,298 @@ theorem finalize_spec (i : Nat) (tr : Option TRO) (f : TFault) :
       · rename_i hm
         exact ⟨fun _ => hm, fun _ => rfl, hsame, othersKept_refl i _⟩
 
+
+/-! ## 3. One reconcile of a bound Rollout (every world of `RV.RolloutSM`, every TrafficRouting, every fault) -/
+
+open RV.RolloutSM in
+/-- the ways one reconcile of rollout `i` can go -/
+inductive RoCase (i : Nat) (b : Bool) (w : World) (tr : Option TRO) (f : TFault) (r : StepResult) (tr' : Option TRO) : Prop
+  /-- the binding plays no part: the plain Rollout reconcile, the TrafficRouting untouched -/
+  | pass (h : reconcile w = .val r) (ht : tr' = tr)
+      (hc : b = false ∨ position w = .other ∨ (position w = .init ∧ r.w.ro.reason ≠ .inRolling))
+  | initDone (hp : position w = .init) (hb : b = true) (h : reconcile w = .val r) (hr : r.w.ro.reason = .inRolling)
+      (hh : handleTrafficRouting i tr f = (.done, tr'))
+  | initWait (hp : position w = .init) (hb : b = true) (r0 : StepResult) (h : reconcile w = .val r0) (hr : r0.w.ro.reason = .inRolling)
+      (hh : handleTrafficRouting i tr f = (.wait, tr'))
+      (he : r = { r0 with w := { r0.w with ro := { r0.w.ro with reason := .initializing } }, requeue := true })
+  | initErr (hp : position w = .init) (hb : b = true) (r0 : StepResult) (h : reconcile w = .val r0) (hr : r0.w.ro.reason = .inRolling)
+      (hh : handleTrafficRouting i tr f = (.err, tr'))
+      (he : r = { r0 with w := { w with ro := (handleFinalizer w.ro).1 }, requeue := false, err := true })
+  | finErr (hp : position w = .fin) (hb : b = true) (hh : finalizeTrafficRouting i tr f = (true, tr'))
+      (he : r = { w := { w with ro := (handleFinalizer w.ro).1 }, roGone := (handleFinalizer w.ro).2.1, requeue := false, err := true,
+                  writes := (handleFinalizer w.ro).2.2 })
+  | finOk (hp : position w = .fin) (hb : b = true) (hh : finalizeTrafficRouting i tr f = (false, tr')) (h : reconcile w = .val r)
+
+theorem ro_cases (i : Nat) (b : Bool) (w : RolloutSM.World) (tr : Option TRO) (f : TFault) (r : RolloutSM.StepResult) (tr' : Option TRO)
+    (h : roReconcile i b w tr f = .val r tr') : RoCase i b w tr f r tr' := by
+  unfold roReconcile at h
+  split at h
+  · rename_i hb
+    split at h
+    · cases h
+    · rename_i r0 hr0
+      cases h
+      exact .pass hr0 rfl (Or.inl (by simpa using hb))
+  · rename_i hb
+    have hb' : b = true := by simpa using hb
+    split at h
+    · -- init
+      rename_i hpos
+      split at h
+      · cases h
+      · rename_i r0 hr0
+        split at h
+        · rename_i hin
+          split at h
+          · rename_i tr1 hh
+            cases h
+            exact .initDone hpos hb' hr0 hin hh
+          · rename_i tr1 hh
+            cases h
+            exact .initWait hpos hb' r0 hr0 hin hh rfl
+          · rename_i tr1 hh
+            cases h
+            exact .initErr hpos hb' r0 hr0 hin hh rfl
+        · rename_i hin
+          cases h
+          exact .pass hr0 rfl (Or.inr (Or.inr ⟨hpos, hin⟩))
+    · -- fin
+      rename_i hpos
+      split at h
+      · rename_i tr1 hh
+        cases h
+        exact .finErr hpos hb' hh rfl
+      · rename_i tr1 hh
+        split at h
+        · cases h
+        · rename_i r0 hr0
+          cases h
+          exact .finOk hpos hb' hh hr0
+    · rename_i hpos
+      split at h
+      · cases h
+      · rename_i r0 hr0
+        cases h
+        exact .pass hr0 rfl (Or.inr (Or.inl hpos))
+
+/-- the binding adds no crash: a bound Rollout's reconcile panics only where the plain one does -/
+theorem ro_panic_only_plain (i : Nat) (b : Bool) (w : RolloutSM.World) (tr : Option TRO) (f : TFault)
+    (h : roReconcile i b w tr f = .panic) : RolloutSM.reconcile w = .panic := by
+  unfold roReconcile at h
+  repeat' split at h
+  all_goals first | (cases h; done) | assumption
+
+
+/-! ### where a Rollout reconcile can leave the rollout (whole `RV.RolloutSM.reconcile`, every world) -/
+
+section Transitions
+open RV.RolloutSM RV.Props.Reconcile
+
+theorem rolling_iff (ro : Rollout) : rolling ro = true ↔ ro.phase = .progressing ∧ (ro.reason = .inRolling ∨ ro.reason = .paused) := by
+  unfold rolling; simp
+
+theorem rolling_congr (a b : Rollout) (h1 : a.phase = b.phase) (h2 : a.reason = b.reason) : rolling a = rolling b := by
+  unfold rolling; rw [h1, h2]
+
+theorem rolling_ro1 (ro : Rollout) : rolling (handleFinalizer ro).1 = rolling ro := by
+  rw [hf_frame ro]; rfl
+
+theorem csPhase_rolling (ro o : Rollout) (w : WL) (h : rolling (csPhase ro o w) = true) : rolling o = true := by
+  unfold csPhase at h
+  repeat' split at h
+  all_goals simp_all [rolling]
+
+theorem csObserve_rolling (o : Rollout) (w : WL) : rolling (csObserve o w) = rolling o := by
+  unfold csObserve
+  repeat' split
+  all_goals rfl
+
+theorem csInit_rolling (x : Rollout) (h : rolling (csInitial (csDisable x)) = true) : rolling x = true := by
+  unfold csInitial csDisable at h
+  repeat' split at h
+  all_goals simp_all [rolling]
+
+/-- the status calculation never makes a rollout "rolling" -/
+theorem cs_rolling (ro ns : Rollout) (wl : Option WL) (h : calculateStatus ro wl = some ns) (hr : rolling ns = true) :
+    rolling ro = true := by
+  unfold calculateStatus at h
+  split at h
+  · injection h with h; subst h
+    split at hr
+    · simp [rolling] at hr
+    · exact hr
+  · dsimp only at h
+    split at h
+    · split at h
+      · injection h with h; subst h; simp [rolling] at hr
+      · injection h with h; subst h
+        exact csInit_rolling ro hr
+    · rename_i w
+      split at h
+      · cases h
+      · injection h with h; subst h
+        have h2 := csPhase_rolling _ _ _ hr
+        rw [csObserve_rolling] at h2
+        exact csInit_rolling ro h2
+
+/-- the clean-up keeps phase and Progressing reason -/
+theorem finalise_ro (w w' : World) (ns : Rollout) (wl : Option WL) (reason : Reason) (wr done err : Bool) (ws : List String)
+    (h : finalise w ns wl reason wr = some (w', done, err, ws)) : w'.ro.phase = ns.phase ∧ w'.ro.reason = ns.reason := by
+  unfold finalise at h
+  split at h
+  · injection h with h
+    simp only [Prod.mk.injEq] at h
+    obtain ⟨hw, _⟩ := h
+    subst hw
+    exact ⟨rfl, rfl⟩
+  · split at h
+    · dsimp only at h
+      split at h
+      · cases h
+      · injection h with h
+        simp only [Prod.mk.injEq] at h
+        obtain ⟨hw, _⟩ := h
+        subst hw
+        exact ⟨rfl, rfl⟩
+    · split at h
+      · split at h
+        · cases h
+        · injection h with h
+          simp only [Prod.mk.injEq] at h
+          obtain ⟨hw, _⟩ := h
+          subst hw
+          exact ⟨rfl, rfl⟩
+      · split at h
+        · cases h
+        · injection h with h
+          simp only [Prod.mk.injEq] at h
+          obtain ⟨hw, _⟩ := h
+          subst hw
+          exact ⟨rfl, rfl⟩
+
+theorem position_init (w : World) (h : position w = .init) : w.ro.phase = .progressing ∧ w.ro.reason = .initializing := by
+  unfold position at h
+  repeat' split at h
+  all_goals first | (cases h; done) | (constructor <;> assumption)
+
+theorem position_fin (w : World) (h : position w = .fin) :
+    (w.ro.phase = .progressing ∧ (w.ro.reason = .finalising ∨ w.ro.reason = .cancelling)) ∨ w.ro.phase = .terminating ∨ w.ro.phase = .disabling := by
+  unfold position at h
+  repeat' split at h
+  all_goals first
+    | (cases h; done)
+    | (left; refine ⟨by assumption, Or.inl (by assumption)⟩; done)
+    | (left; refine ⟨by assumption, Or.inr (by assumption)⟩; done)
+    | (right; left; assumption)
+    | (right; right; assumption)
+
+theorem not_rolling_of_fin (w : World) (h : position w = .fin) : rolling w.ro = false := by
+  rcases position_fin w h with ⟨h1, h2 | h2⟩ | h1 | h1 <;> simp [rolling, h1, *]
+
+/-- **where "rolling" comes from** — for every world: a reconcile leaves the rollout in Progressing/InRolling (or
+    Paused) only if it was there already, or if it was Progressing/Initializing and this reconcile went through
+    `doProgressingInitializing` all the way (the place where the binding is checked) -/
+theorem rolling_origin (w : World) (r : StepResult) (h : reconcile w = .val r) (hr : rolling r.w.ro = true) :
+    rolling w.ro = true ∨ (position w = .init ∧ r.w.ro.reason = .inRolling) := by
+  have e1 := rolling_ro1 w.ro
+  unfold reconcile at h
+  dsimp only at h
+  split at h
+  · cases h
+    left; rw [← e1]; exact hr
+  · rename_i ns hcs
+    have fromNs : ∀ ro' : Rollout, ro'.phase = ns.phase → ro'.reason = ns.reason → rolling ro' = true → rolling w.ro = true := by
+      intro ro' h1 h2 h3
+      rw [← e1]; exact cs_rolling _ ns _ hcs (by rw [← rolling_congr ro' ns h1 h2]; exact h3)
+    have leafNs : ∀ (ro' : Rollout) (w0 : World) (g rq e : Bool) (ws : List String),
+        Out.val { w := { w0 with ro := ro' }, roGone := g, requeue := rq, err := e, writes := ws } = Out.val r →
+        ro'.phase = ns.phase → ro'.reason = ns.reason → rolling w.ro = true ∨ (position w = .init ∧ r.w.ro.reason = .inRolling) := by
+      intro ro' w0 g rq e ws hh h1 h2
+      cases hh
+      exact Or.inl (fromNs ro' h1 h2 hr)
+    have leafRo1 : ∀ (w0 : World) (g rq e : Bool) (ws : List String),
+        Out.val { w := { w0 with ro := (handleFinalizer w.ro).1 }, roGone := g, requeue := rq, err := e, writes := ws } = Out.val r →
+        rolling w.ro = true ∨ (position w = .init ∧ r.w.ro.reason = .inRolling) := by
+      intro w0 g rq e ws hh
+      cases hh
+      left; rw [← e1]; exact hr
+    have finBranch : ∀ (wl : Option WL) (reason : Reason) (wr : Bool) (upd : Rollout → Rollout),
+        (∀ x, rolling (upd x) = true → rolling x = true) →
+        (match finalise w ns wl reason wr with
+         | none => Out.panic
+         | some (w', done, err, ws) =>
+           if err then .val { w := { w' with ro := (handleFinalizer w.ro).1 }, roGone := (handleFinalizer w.ro).2.1, requeue := false, err := true,
+                              writes := (handleFinalizer w.ro).2.2 ++ ws }
+           else if done then .val { w := { w' with ro := upd w'.ro }, roGone := (handleFinalizer w.ro).2.1, requeue := false, err := false,
+                                    writes := (handleFinalizer w.ro).2.2 ++ ws }
+           else .val { w := w', roGone := (handleFinalizer w.ro).2.1, requeue := true, err := false, writes := (handleFinalizer w.ro).2.2 ++ ws }) = Out.val r →
+        rolling w.ro = true ∨ (position w = .init ∧ r.w.ro.reason = .inRolling) := by
+      intro wl reason wr upd hupd hh
+      split at hh
+      · cases hh
+      · rename_i w' done err ws hfz
+        obtain ⟨f1, f2⟩ := finalise_ro _ _ _ _ _ _ _ _ _ hfz
+        split at hh
+        · exact leafRo1 _ _ _ _ _ hh
+        · split at hh
+          · cases hh
+            exact Or.inl (fromNs w'.ro f1 f2 (hupd _ hr))
+          · cases hh
+            exact Or.inl (fromNs w'.ro f1 f2 hr)
+    split at h
+    · -- Progressing
+      rename_i hph
+      have hrollIn : w.ro.reason = .inRolling ∨ w.ro.reason = .paused → rolling w.ro = true := by
+        intro hx; rw [rolling_iff]; exact ⟨hph, hx⟩
+      split at h
+      · exact leafNs _ _ _ _ _ _ h rfl rfl
+      · rename_i wl hwl
+        split at h
+        · exact leafNs _ _ _ _ _ _ h rfl rfl
+        · rename_i hcons
+          split at h
+          · cases h
+          · -- initializing
+            rename_i hreason
+            split at h
+            · cases h
+            · split at h
+              · exact leafRo1 _ _ _ _ _ h
+              · split at h
+                · cases h
+                  refine Or.inl (fromNs _ rfl rfl hr)
+                · cases h
+                  right
+                  refine ⟨?_, rfl⟩
+                  unfold position
+                  rw [hcs]
+                  dsimp only
+                  rw [hph]
+                  dsimp only
+                  rw [hwl]
+                  dsimp only
+                  rw [if_neg hcons, hreason]
+          · -- inRolling
+            rename_i hreason
+            exact Or.inl (hrollIn (Or.inl hreason))
+          · exact finBranch (some wl) .success true (fun x => { x with reason := .completed, succeeded := some true })
+              (fun x hx => by simp [rolling] at hx) h
+          · rename_i hreason
+            exact Or.inl (hrollIn (Or.inr hreason))
+          · exact finBranch (some wl) .rollback false (fun x => { x with reason := .completed, succeeded := some false })
+              (fun x hx => by simp [rolling] at hx) h
+          · cases h
+            simp [rolling] at hr
+          · exact leafNs _ _ _ _ _ _ h rfl rfl
+    · -- Terminating
+      split at h
+      · cases h
+      · exact leafNs _ _ _ _ _ _ h rfl rfl
+      · exact finBranch w.wl .other false (fun x => { x with term := .completed }) (fun x hx => hx) h
+    · -- Disabling
+      exact finBranch w.wl .other false (fun x => { x with phase := .disabled }) (fun x hx => by simp [rolling] at hx) h
+    · exact leafNs _ _ _ _ _ _ h rfl rfl
+
+end Transitions
+
 end RV.Props.TRBind
